@@ -3,6 +3,19 @@ from ._intrinsic import _intrinsic
 from ._primitive_type import _PrimitiveType
 
 
+def _int_truncdiv(lhs: int, rhs: int) -> int:
+    # integer division that rounds towards zero,
+    # int(lhs / rhs) goes through float and is not exact for large operands
+    quotient = abs(lhs) // abs(rhs)
+    return quotient if (lhs < 0) == (rhs < 0) else -quotient
+
+
+def _int_rem(lhs: int, rhs: int) -> int:
+    # remainder of the truncating division, takes the sign of the dividend
+    remainder = abs(lhs) % abs(rhs)
+    return remainder if lhs >= 0 else -remainder
+
+
 class Integer(_PrimitiveType):
     @staticmethod
     def decay(value: int | Integer) -> int:
@@ -186,7 +199,7 @@ class Integer(_PrimitiveType):
 
             if rhs == 0:
                 return Integer()
-            return Integer(int(lhs / rhs))
+            return Integer(_int_truncdiv(lhs, rhs))
         else:
             return NotImplemented
 
@@ -213,7 +226,7 @@ class Integer(_PrimitiveType):
             if rhs == 0:
                 return Integer()
 
-            return Integer(lhs - rhs * int(lhs / rhs))
+            return Integer(_int_rem(lhs, rhs))
         else:
             return NotImplemented
 
